@@ -263,9 +263,14 @@ fn decode_session(bytes: &[u8]) -> (Vec<Value>, Vec<i64>, String) {
     let (mut stratum, mut text) = gen_doc(&mut s);
     // one session in 25 works on a document of 66-90 KiB (more than a pipe buffer holds), with
     // fewer requests (the handlers' position arithmetic is quadratic in the document size)
-    let big = s.chance(1, 25) && !text.is_empty();
+    let big = s.chance(1, 25);
     if big {
-        let unit = text.clone();
+        // repeated VALID program text: repeating a damaged unit would pile up thousands of unclosed
+        // braces, far beyond the nesting bound of the property's quantifier
+        let cfg = GenCfg { max_decls: 6, budget: 200, ..GenCfg::default() };
+        let unit = text::gen_valid_text(&mut s, &cfg, splgen::layout::Style::Spaced);
+        text = unit.clone();
+        stratum = "valid".to_string();
         let want = 66_000 + s.below(24_000);
         while text.len() < want {
             text.push('\n');
@@ -335,7 +340,8 @@ impl Check for Binary {
         r.evals = ids.len() as u64;
         // two frames in five carry a Content-Type header before or after Content-Length (see c19::framed)
         let chunks: Vec<session::Chunk> = msgs.iter().map(|m| session::Chunk { bytes: super::c19::framed(m), sleep_before_ms: 0 }).collect();
-        let opts = RunOpts { close_stdin: true, timeout_ms: WATCHDOG_MS, read_delay_ms: 0 };
+        // the handlers' position arithmetic is quadratic in the document size: more time for the big documents
+        let opts = RunOpts { close_stdin: true, timeout_ms: if stratum.ends_with("66KiB+") { 4 * WATCHDOG_MS } else { WATCHDOG_MS }, read_delay_ms: 0 };
         let mut o = session::run(&chunks, &opts);
         let mut tries = 1;
         while o.timed_out && tries < 3 {
